@@ -61,7 +61,7 @@ def PVal.toValues (pv : PVal) : List (Nat × Bool) := PVal.toValuesFrom 0 pv
     `to_values().rev()`, so the node of the LAST variable is pushed first (on top of the `true` Bdd, whose
     root pointer is 1) and the node of the first variable is pushed last and becomes the root.
     `clauseArr n ((x,b) :: t)` = `clauseArr n t` with the node of `x` pushed, which is the same thing as
-    `foldl push (mkTrue n) (reverse …)` (theorem `clauseArr_eq_foldl` in `Lemmas/Relation.lean`). -/
+    `foldl push (mkTrue n) (reverse …)` (theorem `B.Rel.clauseArr_eq_foldl` in `Lemmas/RelPVal.lean`). -/
 def clauseArr (n : Nat) : List (Nat × Bool) → Arr
   | [] => mkTrue n
   | (x, b) :: t =>
